@@ -298,7 +298,7 @@ def cir_ob():
                     ('first column = initial state', tm.forall(n, tm.IZERO, N, tm.eq(out.at((n, tm.IZERO)), V['v0'])))]
 
         at = lambda t_, n: t_.at((n,)) if t_._shape else t_.at(())
-        half = tm.const(1.5)
+        half = tm.const(2.0)     # the quadratic branch is well-formed exactly for psi <= 2 (2/psi - 1 >= 0); any threshold PSI_CRIT in [1, 2] is admissible (Andersen 2007, 3.2.3)
         abstractions = {
             # each local is proved to satisfy its facts at a fresh path index, then replaced by an opaque tensor with those facts
             'v': lambda st, x: [('v >= 0', lambda y, n: tm.ge(at(y, n), tm.ZERO))],
@@ -646,7 +646,7 @@ def antithetic_ob():
                 # the shim models a symbolic slice only within range (torch would clamp silently): the range must be provable
                 for so in p.side:
                     if so['kind'] == 'bounds':
-                        r = smt.prove(so['hyps'], so['goal'], timeout_ms=20000)
+                        r = smt.prove(so['hyps'], so['goal'], timeout_ms=90000)   # 3-8 s alone; sized for a loaded machine
                         if r.status != 'unsat':
                             rr = real_exec(ANTI_REPLAY, {}, timeout=300)
                             conf = not (rr.get('ok') and rr['result']['got'] == [])
@@ -1012,10 +1012,10 @@ def cir_moments_ob():
                 d3 = Dm.diff(d2, z)
                 z0 = {z: tm.ZERO}
                 c0, c1, c2 = tm.subst(q, z0), tm.subst(d1, z0), tm.div(tm.subst(d2, z0), tm.const(2.0))
-                ok = tm.and_(tm.gt(at(psi_, n), tm.ZERO), tm.le(at(psi_, n), tm.const(1.5)))
+                ok = tm.and_(tm.gt(at(psi_, n), tm.ZERO), tm.le(at(psi_, n), tm.const(2.0)))
                 return tm.implies(ok, tm.and_(tm.eq(d3, tm.ZERO), tm.eq(tm.add(c0, c2), at(m_, n)),
                                               tm.eq(tm.add(tm.mul(c1, c1), tm.mul(tm.const(2.0), c2, c2)), tm.mul(at(psi_, n), at(m_, n), at(m_, n)))))
-            L.append(('quadratic branch (0 < psi <= 1.5): degree 2 in Z, E[v\'] == m, Var[v\'] == psi m^2   (R1)', quad, tm.IZERO, N))
+            L.append(('quadratic branch (0 < psi <= 2): degree 2 in Z, E[v\'] == m, Var[v\'] == psi m^2   (R1)', quad, tm.IZERO, N))
 
             def expo_parts(n):
                 x = at(n1, n)
@@ -1026,6 +1026,13 @@ def cir_moments_ob():
                 mean = tm.eq(tm.div(tm.sub(tm.ONE, p_), b_), mm)
                 var = tm.eq(tm.div(tm.mul(tm.sub(tm.ONE, p_), tm.add(tm.ONE, p_)), tm.mul(b_, b_)), tm.mul(at(psi_, n), mm, mm))
                 return away, form, mean, var
+            out_ = state['output']
+
+            def selected(n):
+                # the value written for step i comes from a branch that is valid at this psi: quadratic needs psi <= 2 (real b), exponential needs psi >= 1 (p >= 0)
+                w = out_.at((n, i))
+                ps = at(psi_, n)
+                return tm.or_(tm.and_(tm.le(ps, tm.const(2.0)), tm.eq(w, at(n0, n))), tm.and_(tm.ge(ps, tm.ONE), tm.eq(w, at(n1, n))))
             L.append(('exponential branch: value is the inverse-transform sample log((1-p)/(1-U))/beta on U > p, else 0   (R5 pattern)', lambda n: tm.implies(expo_parts(n)[0], expo_parts(n)[1]), tm.IZERO, N))
             L.append(('exponential branch: E[v\'] = (1-p)/beta == m', lambda n: tm.implies(expo_parts(n)[0], expo_parts(n)[2]), tm.IZERO, N))
             def helper(k):
@@ -1046,6 +1053,8 @@ def cir_moments_ob():
             gen2 = {'abstract': lambda n: {'p': at(pp, n), 'beta': at(bb, n)},
                     'using': lambda n: [helper(2)(n), helper(3)(n), tm.ge(at(psi_, n), tm.ZERO)]}
             L.append(('exponential branch: E[v\'^2] - m^2 = (1-p^2)/beta^2 == psi m^2', lambda n: tm.implies(expo_parts(n)[0], expo_parts(n)[3]), tm.IZERO, N, gen2))
+            L.append(('the written value is the quadratic value only where psi <= 2 and the exponential value only where psi >= 1 (the ranges on which each branch matches the moments)', selected, tm.IZERO, N,
+                      {'abstract': lambda n: {'q': at(n0, n), 'x': at(n1, n)}, 'using': lambda n: []}))   # only the selection matters: both branch values are opaque here
             return L
 
         def inv(state, state0):
@@ -1069,7 +1078,7 @@ def cir_moments_ob():
                 for so in p.side:
                     if so['kind'] != 'lemma':
                         continue
-                    r = smt.prove(so['hyps'], so['goal'], timeout_ms=20000)
+                    r = smt.prove(so['hyps'], so['goal'], timeout_ms=90000)   # 3-8 s alone; sized for a loaded machine
                     st_ = {'unsat': 'proved', 'sat': 'refuted'}.get(r.status, 'unknown')
                     why = (r.reason or '') if r.status != 'unsat' else ''
                     if st_ == 'unknown':
